@@ -5,7 +5,8 @@ The hand-written Coq models (Newton control, spectral_diff_matrix, helicity coun
 to_Fourier / inverse series, VMEC mode-line loop) are tied to the implementation by correspondence runs evaluated inside Coq.  A correspondence run
 samples; this file adds the fail-closed half of the tie: the digest of the normalised syntax tree of every hand-modelled function is emitted into
 coq/gen/G_pins.v on every run, and a committed obligation (coq/props/Pin_<name>.v) states which digest the model was written and validated against.
-Any edit of such a function -- other than comments, docstrings, blank lines, formatting and logger.debug / logger.info calls -- breaks that obligation;
+Any edit of such a function -- other than comments, docstrings, blank lines, formatting, logger.debug / logger.info calls and a consistent renaming of
+local variables -- breaks that obligation;
 the check then searches for a failing input as for every other broken obligation.
 
 The digest is sha256 of ast.dump (no line numbers / columns) of the selected node."""
@@ -57,6 +58,34 @@ class Strip(ast.NodeTransformer):
         return node
 
 
+class Locals(ast.NodeVisitor):
+    """local variable names of a function in order of their first binding (depth-first): assignment / loop / comprehension / with targets; the
+    parameters are part of the interface (keyword calls) and keep their names"""
+    def __init__(self, fn):
+        self.order = []
+        self.params = {a.arg for a in fn.args.posonlyargs + fn.args.args + fn.args.kwonlyargs}
+        if fn.args.vararg: self.params.add(fn.args.vararg.arg)
+        if fn.args.kwarg: self.params.add(fn.args.kwarg.arg)
+        self.skip = set()
+        for st in fn.body:
+            self.visit(st)
+
+    def visit_Global(self, node): self.skip |= set(node.names)
+    def visit_Nonlocal(self, node): self.skip |= set(node.names)
+
+    def visit_Name(self, node):
+        if isinstance(node.ctx, ast.Store) and node.id not in self.params and node.id not in self.order:
+            self.order.append(node.id)
+
+
+class Rename(ast.NodeTransformer):
+    def __init__(self, mapping): self.m = mapping
+    def visit_Name(self, node):
+        if node.id in self.m:
+            return ast.copy_location(ast.Name(id=self.m[node.id], ctx=node.ctx), node)
+        return node
+
+
 def find_function(tree, name):
     for n in ast.walk(tree):
         if isinstance(n, ast.FunctionDef) and n.name == name:
@@ -82,13 +111,17 @@ def digest(repo, fname, func, selector):
     nodes = select(fn, selector)
     if not nodes:
         return None, 'selector %s matches nothing in %s' % (selector, func)
-    h = hashlib.sha256()
-    for n in nodes:
-        h.update(ast.dump(n, annotate_fields=True, include_attributes=False).encode())
     # module-level constants the selected code reads (e.g. `eps = np.finfo(float).eps` in fourier_interpolation.py) belong to it
     used = set()
     for n in nodes:
         used |= {x.id for x in ast.walk(n) if isinstance(x, ast.Name)}
+    # local variables are renamed v0, v1, ... in order of first binding: renaming a local is not an edit of the function
+    loc = Locals(fn)
+    mapping = {nm: 'v%d' % i for i, nm in enumerate(x for x in loc.order if x not in loc.skip)}
+    nodes = [Rename(mapping).visit(n) for n in nodes]
+    h = hashlib.sha256()
+    for n in nodes:
+        h.update(ast.dump(n, annotate_fields=True, include_attributes=False).encode())
     for st in tree.body:
         if isinstance(st, (ast.Assign, ast.AnnAssign, ast.AugAssign)):
             tg = st.targets if isinstance(st, ast.Assign) else [st.target]
